@@ -62,6 +62,7 @@ class ClassTable:
         self.consts: dict[str, z3.ExprRef] = {}
         self.bases: dict[str, list[str]] = {}
         self.closed = False
+        self.final: set[str] = set()  # classes assumed to have no subclasses (closed hierarchy)
 
     def const(self, name: str) -> z3.ExprRef:
         if name not in self.consts:
@@ -100,6 +101,9 @@ class ClassTable:
         names = sorted(full)
         if len(names) > 1:
             ax.append(z3.Distinct(*[self.consts[n] for n in names]))
+        for n in names:
+            if n in self.final:
+                ax.append(z3.ForAll([a], z3.Implies(sub(a, self.consts[n]), a == self.consts[n]), patterns=[sub(a, self.consts[n])]))
         for n in names:
             anc = self.ancestors(n)
             for m in names:
@@ -293,7 +297,8 @@ def S_str(lit: str) -> Sym:
 class DictPayload:
     """dict model: insertion-ordered distinct keys + total value map (meaningful on keys)."""
 
-    def __init__(self, keys, vals, kspec=VAL, vspec=VAL):
+    def __init__(self, keys, vals, kspec=VAL, vspec=VAL, mode="identity"):
+        self.mode = mode  # "identity": keys compared as z3 terms; "pyeq": identity or (equal hash and ==), may raise TypeError
         self.keys = keys  # SeqV
         self.vals = vals  # Array V V
         self.kspec = kspec
